@@ -56,6 +56,7 @@ var c18Alphabet = []c18Op{
 	{"upsert", "", `{"l":[{"k":"a","v":1}]}`},
 	{"upsert", "", `{"l":[{"k":"b","v":2}]}`},
 	{"upsert", "", `{"l":[{"k":"c","v":1}]}`},
+	{"upsert", "", `{"l":[{"k":"d","v":1},{"k":"d","w":"x"}]}`}, // the same key twice in one document: one entry
 	{"insert", "", `{"l":[{"k":"a","v":2}]}`},
 	{"insert", "l", `{"l":[{"k":"b","v":1}]}`},
 	{"delete", "l=a", ""},
